@@ -23,7 +23,7 @@ INFO = {
                    "inputs are the seven (name, vector) pairs name->field (identitySecret->identity_secret, ... ) of that witness, the "
                    "witness vector is calculate_rln_witness(inputs, graph), and Groth16 is called with (pk.0, r, s, pk.1, "
                    "pk.1.num_instance_variables, pk.1.num_constraints, witness vector) where r and s are two successive draws of one "
-                   "thread_rng. The name table against the bundled graph is C05 R05-3; the verifier's public-input order is C02 R02-3. R01-7 instance state: the proving key, verifying key and graph of an instance have no writer after construction (who-may-write inventory over the MIR), and generate_rln_proof / get_serialized_rln_witness / get_proof / get_root / get_leaf reach no tree mutator in their resolved call graph. R01-8 (shared with C06 R06-3): the in-memory back ends recompute every ancestor of a written range up to the root, unconditionally, so the root a proof is checked against reflects every write. R01-9: generate_proof_with_witness maps each signed element w of an externally computed witness to p - |w| when negative and to w otherwise (or a floored remainder by p), for every element.",
+                   "thread_rng. The name table against the bundled graph is C05 R05-3; the verifier's public-input order is C02 R02-3. R01-7 instance state: the proving key, verifying key and graph of an instance have no writer after construction (who-may-write inventory over the MIR), and generate_rln_proof / get_serialized_rln_witness / get_proof / get_root / get_leaf reach no tree mutator in their resolved call graph. R01-8 (shared with C06 R06-3): the in-memory back ends recompute every ancestor of a written range up to the root, unconditionally, so the root a proof is checked against reflects every write. R01-9: generate_proof_with_witness maps each signed element w of an externally computed witness to p - |w| when negative and to w otherwise (or a floored remainder by p), for every element. R01-10 (shared with C07): the Merkle path a proof is made for is the stored sibling at every level in the three back ends. R01-11 (shared with C02): the verification entry points accept under exactly the specified conditions.",
     "not_decided": "that a proof produced from a satisfying witness verifies (Groth16, QAP reduction, zkey and graph contents - numeric); "
                    "the wasm32-only entry point that takes an externally computed witness vector (no wasm32 std here: cannot be type-checked)",
     "assumptions": ["arkworks Groth16 completeness for a satisfying assignment", "the bundled zkey and graph belong to the same circuit"],
@@ -373,3 +373,22 @@ def run(ctx):
     c06.check_writers(sub, ctx.fb("default"))
     for r in sub.results:
         (ctx.ok if r.status == "ok" else ctx.fail)("R01-8", r.instance, r.reason, r.loc)
+    # R01-10 (shared with C07 R07-1..R07-3): the Merkle path a proof is made for is the stored sibling at every level, in the
+    # circuit's order, for the three back ends (a shortcut or cached path gives a witness whose root is not the tree's)
+    from . import c07
+    sub = _Ctx(ctx.pid, ctx.tier)
+    fbd = ctx.fb("default")
+    c07.check_full(sub, fbd)
+    c07.check_optimal(sub, fbd)
+    c07.check_pmtree(sub, fbd)
+    for r in sub.results:
+        (ctx.ok if r.status == "ok" else ctx.fail)("R01-10", r.instance, r.reason, r.loc)
+    # R01-11 (shared with C02 R02-1..R02-3): "verifies": the verification entry points accept under exactly the specified conditions
+    # (Groth16 check, x binding, root equal to the tree's root / member of the whole supplied root set)
+    from . import c02
+    sub = _Ctx(ctx.pid, ctx.tier)
+    c02.check_entry(sub, fbd, "default", "rln::public::RLN::verify", False, False)
+    c02.check_entry(sub, fbd, "default", "rln::public::RLN::verify_with_roots", False, True, roots=True)
+    c02.check_entry(sub, fbd, "default", "rln::public::RLN::verify_rln_proof", True, True)
+    for r in sub.results:
+        (ctx.ok if r.status == "ok" else ctx.fail)("R01-11", r.instance, r.reason, r.loc)
